@@ -38,6 +38,12 @@ type Info struct {
 	Extra        map[string]any
 }
 
+// rangeAssumptions: what engine E2 takes for granted beyond the trusted base.
+var rangeAssumptions = []string{
+	"a difference X - Y of two operands compared on a dominating edge (X >= Y) is taken to be >= 0 when one operand is proven to lie within +-2^62: byte offsets and lengths do not reach 2^62, so the subtraction does not wrap",
+	"an object whose parse / validate function returns a non-nil error (or, for comma-ok helpers, false next to zero values) is dropped by its caller (exit-refined stores)",
+}
+
 var commonTrusted = []string{
 	"go/types + go/ssa (golang.org/x/tools v0.50.0) represent the program faithfully",
 	"VTA call graph over-approximates dynamic dispatch (cross-checked against CHA in thorough)",
